@@ -419,7 +419,13 @@ class CHECK(Check):
         est.max_iter = case["mi"]          # not a constructor parameter of the public classes
         W0 = [p.detach().clone() for p in pp]
         U0 = [p.detach().clone() for p in ap]
-        est.fit(X, yb, sensitive_features=sb)
+        try:
+            est.fit(X, yb, sensitive_features=sb)
+        except RuntimeError:
+            # torch's BCELoss refuses NaN inputs: accepted as "training diverged" only if the parameters really are non-finite
+            if any(not bool(torch.isfinite(p).all()) for p in pp + ap):
+                return {"kind": "fit", "diverged": True}
+            raise
         same = est.backendEngine_.predictor_model is pm and est.backendEngine_.adversary_model is am
         k = len(rec_a[0]) if rec_a else 0
         out = {"kind": "fit", "n_iter": int(est.n_iter_), "same_modules": bool(same), "hook_steps": k,
@@ -692,6 +698,8 @@ class CHECK(Check):
     def _judge_fit(self, case, o, mo):
         """whole fit: final parameters = fold of the documented step over the scheduled slices (gradients from hooks)"""
         probs = []
+        if o.get("diverged"):
+            return probs      # the generated learning rate made training overflow to NaN: nothing to compare (tagged)
         alpha, lr_p, lr_a = F(case["alpha"]), F(case["lr_p"]), F(case["lr_a"])
         want_k = planned_steps(len(case["X"]), case["bs"], case["ep"], case["mi"])
         if not o["same_modules"]:
@@ -759,6 +767,8 @@ class CHECK(Check):
             k = planned_steps(len(case["X"]), case["bs"], case["ep"], case["mi"])
             tags = ["kind=fit", f"fit_steps={k}", f"y={case['ykind']}", f"sf={case['skind']}", case["constraint"],
                     "fit_batch=-1" if case["bs"] == -1 else "fit_batch>0", "fit_max_iter" if case["mi"] != -1 else "fit_epochs"]
+            if o.get("diverged"):
+                tags.append("fit_diverged_not_judged")
             if "grads" in o and not self._fit_finite(o):
                 tags.append("fit_not_judged_nonfinite")
             return proto_key(case), ("grads" in o and bool(o["grads"])), tags
